@@ -18,7 +18,7 @@ static void build(const Args &a, std::vector<Case> &out) {
   size_t shard = (size_t)a.num("shard", 0), nshards = (size_t)a.num("nshards", 1), idx = 0; // only this shard's cases are materialised
   std::string mode = a.str("mode", "c01");
   bool thorough = a.str("tier", "quick") == "thorough";
-  int nkeys = thorough ? 3 : 1, nseeds = (mode == "c02") ? (thorough ? fo::NSEEDS : 3) : (thorough ? 3 : 2), ncont = thorough ? 4 : 2;
+  int nkeys = thorough ? 3 : 2, nseeds = (mode == "c02") ? (thorough ? fo::NSEEDS : 3) : (thorough ? 3 : 2), ncont = thorough ? 4 : 2;
   if (a.num("prod", 0)) { // production constants (16 MiB chunks): the boundary lengths of one and two real chunks, default T=4 and T=1
     for (int T : {4, 1})
       for (size_t n : {S - 17, S - 16, S - 1, S, S + 1, 2 * S - 16, 2 * S + 3, 4 * S - 16, 4 * S + 3})
